@@ -136,6 +136,47 @@ def _caller_excludes_empty(prog, fi, desc):
     for f, c in callers:
         tests = dominating_tests(f.node.body, c)
         texts = {(t.replace(" ", ""), taken) for t, taken in tests}
+        # a conjunction that holds makes each conjunct hold; a local boolean bound once stands for its definition;
+        # `len(x) > 0`, `len(x) != 0`, `len(x) >= 1` and `x` itself (truthiness) say "not len(x) == 0"
+        named = {}
+        for n in ast.walk(f.node):
+            if isinstance(n, ast.Assign) and len(n.targets) == 1 and isinstance(n.targets[0], ast.Name):
+                named.setdefault(n.targets[0].id, []).append(n.value)
+
+        def spell(e, taken, out, depth=0):
+            if depth > 4:
+                return
+            if isinstance(e, ast.BoolOp) and isinstance(e.op, ast.And) and taken is True:
+                for v in e.values:
+                    spell(v, True, out, depth + 1)
+                return
+            if isinstance(e, ast.BoolOp) and isinstance(e.op, ast.Or) and taken is False:
+                for v in e.values:
+                    spell(v, False, out, depth + 1)
+                return
+            if isinstance(e, ast.UnaryOp) and isinstance(e.op, ast.Not):
+                spell(e.operand, (not taken) if taken in (True, False) else taken, out, depth + 1)
+                return
+            if isinstance(e, ast.Name) and len(named.get(e.id, [])) == 1:
+                spell(named[e.id][0], taken, out, depth + 1)
+                return
+            if isinstance(e, ast.Compare) and len(e.ops) == 1 and isinstance(e.left, ast.Call) and call_name(e.left) == "len" and isinstance(e.comparators[0], ast.Constant):
+                op, cst = type(e.ops[0]).__name__, e.comparators[0].value
+                if (op, cst) in (("Gt", 0), ("NotEq", 0), ("GtE", 1)):
+                    out.add((u(e.left).replace(" ", "") + "==0", (not taken) if taken in (True, False) else taken))
+                    return
+                if (op, cst) in (("Lt", 1), ("LtE", 0)):
+                    out.add((u(e.left).replace(" ", "") + "==0", taken))
+                    return
+            out.add((u(e).replace(" ", ""), taken))
+
+        more = set()
+        for t, taken in tests:
+            try:
+                spell(ast.parse(t, mode="eval").body, taken, more)
+            except SyntaxError:
+                pass
+        texts |= more
         ok = None
         for t, taken in texts:
             # a tree with more than one clone keeps at least one node in the pruned copy it draws from
